@@ -297,6 +297,10 @@ Print Assumptions C20_source_fiber_link.
 Theorem C20_source_eqpt_in_city_to_city : forall c to_ es t d, g_ein c to_ es t d = eqpt_in_city_to_city c to_ es t d.
 Proof. exact gen_ein. Qed.
 Print Assumptions C20_source_eqpt_in_city_to_city.
+(* corresp_next_node: the walk from an amplifier to "the next ILA or ROADM" passes over fibres and fused elements *)
+Theorem C20_source_next_node_walk : forall k, g_skipped_kind k = skipped_kind k.
+Proof. exact gen_skipped_kind. Qed.
+Print Assumptions C20_source_next_node_walk.
 Theorem C20_source_sanity_check : forall ns ls es,
   g_sanity_check ns ls es = sanity_check ns ls es /\ forall n, g_correct_type ls n = correct_type ls n.
 Proof. intros. split; [apply gen_sanity_check | intros; apply gen_correct_type]. Qed.
